@@ -87,6 +87,15 @@ def install(s):
         if isinstance(v, SV) and v.taint is True: e.check_vc(st, True, 'uninit', 'observed value depends on uninitialised memory')
         st.observes.append(v)
     B['@__verif_observe'] = observe
+    def env_input(e, st, a, ins):
+        # a value handed to an environment model (e.g. the linear solver): the model's result is a function of it, so it must
+        # not depend on uninitialised memory or on the clock
+        v = a[0]
+        t = getattr(v, 'taint', None)
+        if t is True: e.check_vc(st, True, 'uninit', 'value passed to the environment (linear solver) depends on uninitialised memory')
+        elif t == 'clock': e.check_vc(st, True, 'uninit', 'value passed to the environment (linear solver) depends on the clock')
+    B['@__verif_env_input_f'] = env_input
+    B['@__verif_env_input'] = env_input
     B['@__verif_observe_f'] = observe
     def protect(e, st, a, ins, on=True):
         p = a[0]; n = conc(e, st, a[1], 'protect size')
